@@ -236,6 +236,8 @@ theorem inv_step {sched : List (List Nat)} {s s' : St} {l : Label}
   | read _ _ => exact ⟨hpos, hro⟩
   | write _ _ => exact ⟨hpos, hro⟩
   | create _ _ => exact ⟨hpos, hro⟩
+  | backup _ => exact ⟨hpos, hro⟩
+  | copyFail _ => exact ⟨hpos, hro⟩
 
 theorem inv_run {sched : List (List Nat)} {s s' : St} {ls : List Label}
     (hi : Inv sched s) (hr : Run d allow s ls s') : Inv sched s' := by
@@ -266,6 +268,8 @@ theorem closed_mono {s s' : St} {ls : List Label} (hr : Run d allow s ls s') :
     | read _ _ => exact ⟨ext, he⟩
     | write _ _ => exact ⟨ext, he⟩
     | create _ _ => exact ⟨ext, he⟩
+    | backup _ => exact ⟨ext, he⟩
+    | copyFail _ => exact ⟨ext, he⟩
 
 /-- Once an op is closed none of its tasks ever runs again (each op occurs once in the schedule). -/
 theorem closed_never_runs {sched : List (List Nat)} {s1 s2 : St} {l1 l2 : List Label} {p t : Nat}
@@ -458,6 +462,8 @@ theorem evInv_step {s s' : St} {l : Label} {E : List Event}
   | read _ _ => exact ⟨⟨past, hpast, by simp [hE, emit, evOf]⟩, hnd, hfin, hrun, hrf⟩
   | write _ _ => exact ⟨⟨past, hpast, by simp [hE, emit, evOf]⟩, hnd, hfin, hrun, hrf⟩
   | create _ _ => exact ⟨⟨past, hpast, by simp [hE, emit, evOf]⟩, hnd, hfin, hrun, hrf⟩
+  | backup _ => exact ⟨⟨past, hpast, by simp [hE, emit]⟩, hnd, hfin, hrun, hrf⟩
+  | copyFail _ => exact ⟨⟨past, hpast, by simp [hE, emit]⟩, hnd, hfin, hrun, hrf⟩
 
 theorem evInv_run {s s' : St} {ls : List Label} {E : List Event}
     (hi : EvInv d s E) (hr : Run d allow s ls s') : EvInv d s' (E ++ evBody ls) := by
@@ -1522,6 +1528,8 @@ theorem read_label_of_obs {ls : List Label} {a : Nat} (h : Obs.read a ∈ obsBod
   | read o t a' => simp [emit] at hemit; subst hemit; exact ⟨l1, o, t, l2, rfl⟩
   | write o t a' => simp [emit] at hemit
   | create t a' => simp [emit] at hemit
+  | backup o t => simp [emit] at hemit
+  | copyFail o t => simp [emit] at hemit
 
 /-- … taken in some reachable state of the run -/
 theorem read_step_of_obs {s0 s : St} {ls : List Label} {a : Nat} (hr : Run d allow s0 ls s)
